@@ -296,7 +296,7 @@ macro_rules! inst_1d {
 
 macro_rules! inst_2d {
     ($name:ident, $d:ty, $dq:ty) => {
-        fn $name(_strat: &str, a: &Args) -> Option<Vec<(String, Obs, bool)>> {
+        fn $name(strat: &str, a: &Args) -> Option<Vec<(String, Obs, bool)>> {
             let data = a.data.clone().into_dimensionality::<$d>().ok()?;
             let qx = a.q.clone().into_dimensionality::<$dq>().ok()?;
             let qy = a.qy?.clone().into_dimensionality::<$dq>().ok()?;
@@ -306,7 +306,7 @@ macro_rules! inst_2d {
             let mut expected = a.q.shape().to_vec();
             expected.extend_from_slice(&a.data.shape()[2..]);
             let single_shape = a.data.shape()[2..].to_vec();
-            let ip = Interp2DBuilder::new(data).x(x).y(y).strategy(Bilinear::new().extrapolate(true)).build().ok()?;
+            let ip = Interp2DBuilder::new(data).x(x).y(y).strategy(Bilinear::new().extrapolate(strat == "Bilinear")).build().ok()?;
             let mut out = vec![];
             let r = catch(|| ip.interp(q0, q1));
             out.push(("interp".to_string(), match r { Ok(Ok(v)) => obs_arr(&v.into_dyn()), Ok(Err(e)) => Obs::Err(e.to_string()), Err(p) => Obs::Panic(p) }, true));
@@ -682,6 +682,9 @@ fn body(ctx: &Ctx) -> (Summary, Meta) {
             if deep {
                 jobs.push(Job { two_d: true, strat: "Bilinear", data_shape: shapes_alt(rank), query_shape: qs.clone(), inst: (d, dq), failing: false });
             }
+            if qs.iter().product::<usize>() >= 2 {
+                jobs.push(Job { two_d: true, strat: "Bilinear/no-extrapolation", data_shape: shapes_for(rank), query_shape: qs.clone(), inst: (d, dq), failing: true });
+            }
             jobs.push(Job { two_d: true, strat: "Bilinear", data_shape: shapes_for(rank), query_shape: qs, inst: (d, dq), failing: false });
         }
     }
@@ -698,7 +701,7 @@ fn body(ctx: &Ctx) -> (Summary, Meta) {
         out
     }));
     let meta = Meta {
-        rule: "for every (strategy, data rank 1..4, query rank 0..3 / dynamic, static-or-dynamic instantiation) the four call forms {interp, interp_into, interp_array, interp_array_into} are run once with all arguments as owned C-order arrays (reference) and then with each argument (data, x, y, query xs, query ys, output buffer, boundary array) independently in every layout of the alphabet {F order, every 2nd (3rd) element of a larger poisoned array, reversed along an axis (negative stride), permuted axes storage; buffers also as reversed windows}, and with the full product over a 3-layout core {C, F, reversed+strided} of (data, x, query, buffer). For Linear every job is repeated with a query holding two different out-of-range values: the error (which names the first offending value in logical order) and the partially filled buffer must not depend on the layouts either. Oracle: bit-identical to the reference; correctly shaped buffers accepted; memory outside strided buffers untouched. Non-trivial = at least one argument not in C order. Aliasing phase: Interp2D whose x and y axes are views into one allocation starting at the same element (column/row of one table; forward/backward slice of one vector; the same view twice), 2..6 points, every query pair over the knots and interior points (diagonal included), batch queries that are the axes themselves or views of one array, and Interp1D whose axis is a column of its data - each compared bit for bit with the same call on owned copies.".into(),
+        rule: "for every (strategy, data rank 1..4, query rank 0..3 / dynamic, static-or-dynamic instantiation) the four call forms {interp, interp_into, interp_array, interp_array_into} are run once with all arguments as owned C-order arrays (reference) and then with each argument (data, x, y, query xs, query ys, output buffer, boundary array) independently in every layout of the alphabet {F order, every 2nd (3rd) element of a larger poisoned array, reversed along an axis (negative stride), permuted axes storage; buffers also as reversed windows}, and with the full product over a 3-layout core {C, F, reversed+strided} of (data, x, query, buffer). For Linear and Bilinear every job is repeated with a query holding two different out-of-range values: the error (which names the first offending value in logical order) and the partially filled buffer must not depend on the layouts either. Oracle: bit-identical to the reference; correctly shaped buffers accepted; memory outside strided buffers untouched. Non-trivial = at least one argument not in C order. Aliasing phase: Interp2D whose x and y axes are views into one allocation starting at the same element (column/row of one table; forward/backward slice of one vector; the same view twice), 2..6 points, every query pair over the knots and interior points (diagonal included), batch queries that are the axes themselves or views of one array, and Interp1D whose axis is a column of its data - each compared bit for bit with the same call on owned copies.".into(),
         bounds: format!("{njobs} instantiation jobs; tier {}", ctx.tier.name()),
         assumptions: vec!["all layouts are realised as owned arrays / mutable views with unusual strides; ownership kinds (view, shared) are covered by C19".into()],
         extra: vec![],
